@@ -74,6 +74,7 @@ func init() {
 		c08CompileErrors(c)
 		c08PrintCallsKept(c)
 		c08EmbeddedCodeWhole(c)
+		c08WrittenModuleSearched(c)
 	}
 	extras["C09"] = func(c *Ctx) {
 		c.Borrow("C06", "C06.D1", "C09.S4", "no map iteration order reaches the report: repeated validations through one compiled profile give the same report as a fresh one", 1, nil)
@@ -2889,5 +2890,178 @@ func c13DefaultOnlyForEmpty(c *Ctx) {
 	}
 	if n == 0 {
 		r.Unknown("C13.Q10", "default-message", "", "no call that chooses between a constant text and the message read from the profile was found")
+	}
+}
+
+// c08WrittenModuleSearched (B9): the compiler looks for denied built-ins only after the stages that rewrite the module,
+// and a stage can drop code on the way (the with-modifiers of a print call, in the linked version).  The function that
+// compiles the policy therefore searches the module as it is written as well (what the compiler cannot see is enough).  Decided in three parts: (a) E-sym: the error
+// the compiling function returns is, whenever the compilation itself reported none, the result of a function of the module
+// that is handed the very text that was compiled; (b) SSA: that function parses the text (ast.ParseModule) and visits both
+// the expressions and the terms of the parsed module (a call is an expression when it is a statement and a term when it is
+// an operand or a with-value); (c) it compares what it finds with the same deny-list the compiler is given.
+func c08WrittenModuleSearched(c *Ctx) {
+	r, p := c.R, c.P
+	r.Rule("C08.B9", "after a successful compilation the module as written is searched for calls of the denied built-ins, and the outcome is the error that is returned", 1)
+	pk := p.Pkg("internal/validator")
+	if pk == nil {
+		r.Unknown("C08.B9", "package", "", "internal/validator not found")
+		return
+	}
+	n := 0
+	for _, f := range pk.Syntax {
+		fname := p.Fset.Position(f.Pos()).Filename
+		if strings.HasSuffix(fname, "_test.go") || strings.HasSuffix(fname, "test_utils.go") {
+			continue
+		}
+		for _, d := range f.Decls {
+			fd, ok := d.(*ast.FuncDecl)
+			if !ok || fd.Body == nil {
+				continue
+			}
+			compiles := false
+			ast.Inspect(fd.Body, func(nd ast.Node) bool {
+				if call, ok := nd.(*ast.CallExpr); ok && funcFullName(calleeOf(pk.TypesInfo, call)) == "(*"+opaPath+"/rego.Rego).PrepareForEval" {
+					compiles = true
+				}
+				return true
+			})
+			if !compiles {
+				continue
+			}
+			n++
+			key := relOf(pk) + "." + fd.Name.Name + "#written-module"
+			var errs []*Sym
+			proto := &symWalker{Inline: func(*types.Func) bool { return false }}
+			proto.OnReturn = func(w *symWalker, ret *ast.ReturnStmt, results []*Sym) {
+				if w.depth == 0 && len(results) >= 1 {
+					errs = append(errs, results[len(results)-1])
+				}
+			}
+			p.SymWalk(pk, fd, proto, nil)
+			// the text that is compiled: second operand of rego.Module
+			var compiled *Sym
+			for _, e := range errs {
+				e.Walk(func(s *Sym) {
+					if s.K == symCall && s.Fn == opaPath+"/rego.Module" && len(s.Parts) == 2 {
+						compiled = s.Parts[1]
+					}
+				})
+			}
+			if compiled == nil || len(errs) == 0 {
+				r.Unknown("C08.B9", key, p.Pos(fd.Pos()), "the text handed to rego.Module, or the returned error, could not be evaluated")
+				continue
+			}
+			var searcher string
+			okAll := true
+			why := ""
+			for _, e := range errs {
+				// the alternative that is returned when the compilation reported no error
+				var onSuccess *Sym
+				if e.K == symChoice && len(e.AltConds) == len(e.Parts) {
+					for i, cnd := range e.AltConds {
+						t := cnd.String()
+						if strings.HasPrefix(t, "(result1(") && strings.HasSuffix(t, " == nil)") && strings.Contains(t, "PrepareForEval") && !strings.Contains(t, "&&") && !strings.Contains(t, "||") {
+							onSuccess = e.Parts[i]
+						}
+					}
+				}
+				if onSuccess == nil {
+					okAll, why = false, "the returned error is "+shortFormat(e.String())+": when the compilation reports no error, nothing else is consulted"
+					break
+				}
+				if onSuccess.K != symCall || !strings.HasPrefix(onSuccess.Fn, ModulePath+"/") {
+					okAll, why = false, "when the compilation reports no error the function returns "+shortFormat(onSuccess.String())+", not the outcome of a search of the written module"
+					break
+				}
+				handed := false
+				for _, a := range onSuccess.Parts {
+					if a.String() == compiled.String() {
+						handed = true
+					}
+				}
+				if !handed {
+					okAll, why = false, "the searching function is not handed the text that was compiled ("+shortFormat(compiled.String())+")"
+					break
+				}
+				searcher = onSuccess.Fn
+			}
+			if !okAll {
+				r.Bad("C08.B9", key, p.Pos(fd.Pos()), why)
+				continue
+			}
+			// (b), (c): the searcher's body
+			var sf *ssa.Function
+			for _, fn := range p.ModuleFuncs() {
+				if fn.Object() != nil && funcFullName(fn.Object()) == searcher {
+					sf = fn
+				}
+			}
+			if sf == nil {
+				r.Unknown("C08.B9", key, p.Pos(fd.Pos()), "the body of "+searcher+" was not found")
+				continue
+			}
+			calls := map[string]bool{}
+			globals := map[string]bool{}
+			var visit func(f *ssa.Function, depth int)
+			visit = func(f *ssa.Function, depth int) {
+				if f == nil || depth > 3 {
+					return
+				}
+				for _, b := range f.Blocks {
+					for _, ins := range b.Instrs {
+						if ci, ok := ins.(ssa.CallInstruction); ok {
+							calls[funcFullName(ssaCalleeObj(ci))] = true
+							if callee := ci.Common().StaticCallee(); callee != nil && IsModuleFunc(callee) && callee != f {
+								visit(callee, depth+1)
+							}
+						}
+						for _, op := range ins.Operands(nil) {
+							if g, ok := (*op).(*ssa.Global); ok {
+								globals[g.Name()] = true
+							}
+						}
+					}
+				}
+				for _, anon := range f.AnonFuncs {
+					visit(anon, depth+1)
+				}
+			}
+			visit(sf, 0)
+			// the deny-list the compiler is given: the global handed to rego.UnsafeBuiltins in the compiling function
+			denyList := ""
+			if cf := p.Func(relOf(pk), fd.Name.Name); cf != nil {
+				for _, b := range cf.Blocks {
+					for _, ins := range b.Instrs {
+						if ci, ok := ins.(ssa.CallInstruction); ok && funcFullName(ssaCalleeObj(ci)) == opaPath+"/rego.UnsafeBuiltins" && len(ci.Common().Args) == 1 {
+							v := ci.Common().Args[0]
+							if ld, ok := v.(*ssa.UnOp); ok {
+								v = ld.X
+							}
+							if g, ok := v.(*ssa.Global); ok {
+								denyList = g.Name()
+							}
+						}
+					}
+				}
+			}
+			var missing []string
+			if !calls[opaPath+"/ast.ParseModule"] && !calls[opaPath+"/ast.ParseModuleWithOpts"] {
+				missing = append(missing, "it does not parse the text")
+			}
+			if !calls[opaPath+"/ast.WalkExprs"] {
+				missing = append(missing, "it does not visit the expressions (a call written as a statement)")
+			}
+			if !calls[opaPath+"/ast.WalkTerms"] {
+				missing = append(missing, "it does not visit the terms (a call written as an operand or as the value of a with-modifier)")
+			}
+			if denyList == "" || !globals[denyList] {
+				missing = append(missing, "it does not consult the deny-list the compiler is given")
+			}
+			r.Check(len(missing) == 0, "C08.B9", key, p.Pos(fd.Pos()), "on success the error is "+searcher+"(the compiled text), which parses it and visits expressions and terms against "+denyList, searcher+" is consulted after the compilation, but "+strings.Join(missing, "; "))
+		}
+	}
+	if n == 0 {
+		r.Unknown("C08.B9", "compile-site", "", "no function that prepares a policy for evaluation was found")
 	}
 }
